@@ -529,11 +529,31 @@ func Gen(r *sim.Rng, kind string) (*sim.WorldSpec, *Meta) {
 			methods[i].Intf = methods[i-1].Intf
 		}
 	}
+	has0 := false
+	for _, mm := range methods {
+		if mm.Intf == 0 {
+			has0 = true
+		}
+	}
+	if !has0 {
+		for i := range methods {
+			methods[i].Intf = 0
+		}
+	}
 	for ii := 0; ii < nIntf; ii++ {
+		empty := true
+		for _, mm := range methods {
+			if mm.Intf == ii {
+				empty = false
+			}
+		}
+		if empty && ii > 0 {
+			continue // an empty converter interface is not a well-formed setup
+		}
 		if ii == 0 {
 			setup.WriteString("type Convergen interface {\n")
 		} else {
-			setup.WriteString("// :convergen\ntype More interface {\n")
+			setup.WriteString("// More holds further copy methods.\n// :convergen\ntype More interface {\n")
 		}
 		for _, mm := range methods {
 			if mm.Intf != ii {
